@@ -238,6 +238,16 @@ pub fn for_each_value(cfg: &Cfg, tag: &str, f: &ValueCheck<'_>) -> Stats {
     // look-ups produce (a table row that stores `und` as text instead of the empty language ...)
     {
         let mut lk: Vec<Vec<u8>> = c.likely_keys.iter().chain(c.likely_vals.iter()).map(|s| s.as_bytes().to_vec()).collect();
+        // and every two- and three-letter language, whether CLDR knows it or not (a table row that
+        // the data do not contain shows only when its key is asked for)
+        for a in b'a'..=b'z' {
+            for b in b'a'..=b'z' {
+                lk.push(vec![a, b]);
+                for c3 in b'a'..=b'z' {
+                    lk.push(vec![a, b, c3]);
+                }
+            }
+        }
         lk.sort();
         lk.dedup();
         let n6 = lk.len() as u64 * 3;
@@ -254,7 +264,7 @@ pub fn for_each_value(cfg: &Cfg, tag: &str, f: &ValueCheck<'_>) -> Stats {
             }
         });
         total = total.merge(s);
-        total.subspace("every CLDR likelySubtags key and value after maximize / minimize / both", n6, true);
+        total.subspace("every CLDR likelySubtags key and value and every two- / three-letter language after maximize / minimize / both", n6, true);
     }
     // exhaustive short histories
     let alpha = ops::op_alphabet();
